@@ -35,6 +35,7 @@ import (
 	"go.uber.org/zap"
 
 	"github.com/mimiro-io/datahub/internal/conf"
+	"github.com/mimiro-io/datahub/internal/verifhook"
 )
 
 type qresult struct {
@@ -1698,9 +1699,12 @@ func (s *Store) ExecuteTransaction(transaction *Transaction) error {
 		datasets[k] = dataset.(*Dataset)
 		s.MetaCtx.RegisterTransactionSink(k)
 
+		verifhook.Point("lock.wait", k)
 		dataset.(*Dataset).WriteLock.Lock()
+		verifhook.Point("lock.acquired", k)
 		// release lock at end regardless
 		defer dataset.(*Dataset).WriteLock.Unlock()
+		defer verifhook.Point("lock.release", k)
 	}
 
 	txnTime := time.Now().UnixNano()
@@ -1719,15 +1723,18 @@ func (s *Store) ExecuteTransaction(transaction *Transaction) error {
 		updateCountsPerDataset[k] = newItems
 	}
 
+	verifhook.Point("txn.beforeIdCommit", "")
 	err := s.commitIDTxn()
 	if err != nil {
 		return err
 	}
+	verifhook.Point("txn.afterIdCommit", "")
 
 	err = txn.Commit()
 	if err != nil {
 		return err
 	}
+	verifhook.Point("txn.afterCommit", "")
 
 	// update the txn counts
 	for k, v := range updateCountsPerDataset {
@@ -1740,6 +1747,7 @@ func (s *Store) ExecuteTransaction(transaction *Transaction) error {
 		if err != nil {
 			return err
 		}
+		verifhook.Point("txn.afterUpdateDataset", k)
 	}
 
 	return nil
